@@ -171,6 +171,44 @@ theorem transpose_mul_inv_gram_mul (A B : Matrix n n α) (_hAB : A * B = 1) (hBA
   have h : Aᵀ * Bᵀ = 1 := by rw [← Matrix.transpose_mul, hBA, Matrix.transpose_one]
   rw [← Matrix.mul_assoc, h, Matrix.one_mul, hBA]
 
+/-- 10. Inverse of a 2×2 block matrix, pivot on the (1,1) block, inverses given by hypotheses (Schur complement). -/
+theorem inv_fromBlocks11 (A Ai : Matrix m m α) (hA : A * Ai = 1) (hA' : Ai * A = 1)
+    (B : Matrix m n α) (C : Matrix n m α) (D Si : Matrix n n α)
+    (hS : (D - C * Ai * B) * Si = 1) (hS' : Si * (D - C * Ai * B) = 1) :
+    Matrix.fromBlocks A B C D *
+      Matrix.fromBlocks (Ai + Ai * B * Si * C * Ai) (-(Ai * B * Si)) (-(Si * C * Ai)) Si = 1 := by
+  let iA : Invertible A := ⟨Ai, hA', hA⟩
+  have hinv : ⅟A = Ai := rfl
+  let iS : Invertible (D - C * ⅟A * B) := ⟨Si, by rw [hinv]; exact hS', by rw [hinv]; exact hS⟩
+  have hinvS : ⅟(D - C * ⅟A * B) = Si := rfl
+  let iF := fromBlocks₁₁Invertible A B C D
+  have h := invOf_fromBlocks₁₁_eq A B C D
+  rw [hinvS, hinv] at h
+  rw [← h]
+  exact mul_invOf_self _
+
+/-- 11. Inverse of a 2×2 block matrix, pivot on the (2,2) block. -/
+theorem inv_fromBlocks22 (A : Matrix m m α) (B : Matrix m n α) (C : Matrix n m α)
+    (D Di : Matrix n n α) (hD : D * Di = 1) (hD' : Di * D = 1) (Si : Matrix m m α)
+    (hS : (A - B * Di * C) * Si = 1) (hS' : Si * (A - B * Di * C) = 1) :
+    Matrix.fromBlocks A B C D *
+      Matrix.fromBlocks Si (-(Si * B * Di)) (-(Di * C * Si)) (Di + Di * C * Si * B * Di) = 1 := by
+  let iD : Invertible D := ⟨Di, hD', hD⟩
+  have hinv : ⅟D = Di := rfl
+  let iS : Invertible (A - B * ⅟D * C) := ⟨Si, by rw [hinv]; exact hS', by rw [hinv]; exact hS⟩
+  have hinvS : ⅟(A - B * ⅟D * C) = Si := rfl
+  let iF := fromBlocks₂₂Invertible A B C D
+  have h := invOf_fromBlocks₂₂_eq A B C D
+  rw [hinvS, hinv] at h
+  rw [← h]
+  exact mul_invOf_self _
+
+/-- 12. The Schur complement of a symmetric block matrix with respect to a symmetric pivot is symmetric. -/
+theorem schur_symm (Ai : Matrix m m α) (hAi : Aiᵀ = Ai) (B : Matrix m n α) (D : Matrix n n α) (hD : Dᵀ = D) :
+    (D - Bᵀ * Ai * B)ᵀ = D - Bᵀ * Ai * B := by
+  rw [Matrix.transpose_sub, Matrix.transpose_mul, Matrix.transpose_mul, Matrix.transpose_transpose, hAi, hD,
+    Matrix.mul_assoc]
+
 end GtvLemmas
 
 #print axioms GtvLemmas.det_rank_one_update
@@ -180,3 +218,6 @@ end GtvLemmas
 #print axioms GtvLemmas.det_principal_submatrix_reindex
 #print axioms GtvLemmas.natural_param_foldl_perm
 #print axioms GtvLemmas.transpose_mul_inv_gram_mul
+#print axioms GtvLemmas.inv_fromBlocks11
+#print axioms GtvLemmas.inv_fromBlocks22
+#print axioms GtvLemmas.schur_symm
